@@ -347,7 +347,15 @@ template <class K> struct C11Probe {
     }
     void probe_add_edge() {
         auto lv = e.live_v(); if (lv.size() < 2) return;
-        int a = rng.pick(lv), b = rng.pick(lv); if (a == b) return;
+        int a = rng.pick(lv), b = rng.pick(lv);
+        // look-alikes: the end points of an edge that is deleted but not yet collected, with the incidences possibly recomputed in between
+        if (rng.chance(1, 3)) {
+            std::vector<int> cand; const Scan &sc = e.s;
+            for (int x = 0; x < sc.ne; ++x) if (sc.edel[x] && sc.ev[x][0] >= 0 && sc.ev[x][0] < sc.nv && sc.ev[x][1] >= 0 && sc.ev[x][1] < sc.nv && !sc.vdel[sc.ev[x][0]] && !sc.vdel[sc.ev[x][1]]) cand.push_back(x);
+            if (!cand.empty()) { int x = rng.pick(cand); a = sc.ev[x][0]; b = sc.ev[x][1]; ctx.cls("add_edge:probe-on-deleted-edge");
+                if (rng.chance(1, 2)) { bool was = e.mesh.has_vertex_bottom_up_incidences(); ctx.op("enable_vertex_bottom_up_incidences(0/1) before the probe"); e.mesh.enable_vertex_bottom_up_incidences(false); if (was || rng.chance(1, 2)) e.mesh.enable_vertex_bottom_up_incidences(true); e.rescan(); } }
+        }
+        if (a == b) return;
         auto before = snap();
         auto ex = e.halfedges_between(a, b);
         int n0 = e.s.ne;
